@@ -102,6 +102,10 @@ pub enum GOp {
     Abs { dst: u8, f: u8 },
     ToBits { a: u8 },
     ToBytes { a: u8 },
+    /// read `R1CSVar::value()` of an element variable outside any allocation closure (as a
+    /// circuit may do); the result is only compared in honest runs, but the call itself is made
+    /// in every mode, setup included (where it returns AssignmentMissing)
+    ReadValue { a: u8 },
 }
 
 impl GOp {
@@ -575,6 +579,29 @@ impl Machine {
                 let (va, _, _) = ereg!(*a);
                 let _ = va.to_bytes().map_err(|e| synth(e, &name))?;
             }
+            GOp::ReadValue { a } => {
+                // on the register's own variable (not a clone), so that lazy state changes persist
+                let idx = {
+                    let set: Vec<usize> = self.ev.iter().enumerate().filter(|(_, r)| r.is_some()).map(|(i, _)| i).collect();
+                    if set.is_empty() {
+                        return Ok(StepOut::Skipped);
+                    }
+                    set[*a as usize % set.len()]
+                };
+                let r = self.ev[idx].as_ref().unwrap();
+                let v = catch_unwind(AssertUnwindSafe(|| r.var.value()));
+                if self.run == Run::Honest {
+                    match v {
+                        Ok(Ok(got)) => {
+                            if let Err(why) = elem_eq_exact(&got, &r.native) {
+                                ctx.report("C13|ReadValue|value", format!("value(): {why}"))?;
+                            }
+                        }
+                        Ok(Err(e)) => ctx.report("C13|ReadValue|value-error", format!("value() failed: {e:?}"))?,
+                        Err(_) => ctx.report("C13|ReadValue|value-panic", "value() panicked".to_string())?,
+                    }
+                }
+            }
         }
         self.steps_done += 1;
         if let Some(why) = native_fails {
@@ -674,6 +701,7 @@ pub fn gop() -> BoxedStrategy<GOp> {
         1 => (f(), f()).prop_map(|(dst, f)| GOp::Abs { dst, f }),
         1 => e().prop_map(|a| GOp::ToBits { a }),
         1 => e().prop_map(|a| GOp::ToBytes { a }),
+        2 => e().prop_map(|a| GOp::ReadValue { a }),
     ]
     .boxed()
 }
